@@ -10,6 +10,7 @@ import (
 	"net/url"
 	"os"
 	"strings"
+	"sync/atomic"
 	"testing/iotest"
 	"unicode/utf8"
 
@@ -111,9 +112,11 @@ func ok(err error) bool {
 // rendering of every error text the dominant cost.
 var renderErrors = true
 
-var sink int
+var sink atomic.Int64
 
-func use(vs ...any) { sink += len(vs) }
+// use keeps results alive; atomic, because race mode calls the table from
+// several goroutines.
+func use(vs ...any) { sink.Add(int64(len(vs))) }
 
 // fams are the only address families the documentation allows.
 var fams = []netutil.AddrFamily{netutil.AddrFamilyIPv4, netutil.AddrFamilyIPv6}
